@@ -136,18 +136,58 @@ def key_id(kt, k):
     return ('s', k)
 
 
-def gen_variant_type(rng, depth):
-    """type of a variant's content: anything sigFromPy can infer exactly (no 'h')"""
+def gen_variant_type(rng, depth, allow_v=False):
+    """type of a variant's content: anything sigFromPy can infer exactly (no 'h'; a nested 'v'
+    only as array element or dict value, where heterogeneous elements make it arise)"""
     r = rng.random()
+    if allow_v and r < 0.25:
+        return 'v'
     if depth <= 0 or r < 0.6:
         return rng.choice('ybnqiuxtdsogiis')
-    if r < 0.8:
+    if r < 0.85:
         if rng.random() < 0.4:
-            return ['a', ['{', rng.choice('sisyqu'), gen_variant_type(rng, depth - 1)]]
-        return ['a', gen_variant_type(rng, depth - 1)]
-    if r < 0.9:
-        return ['(', [gen_variant_type(rng, depth - 1) for _ in range(rng.choice([1, 2, 3]))]]
-    return 'v'
+            return ['a', ['{', rng.choice('sisyqu'), gen_variant_type(rng, depth - 1, True)]]
+        return ['a', gen_variant_type(rng, depth - 1, True)]
+    return ['(', [gen_variant_type(rng, depth - 1) for _ in range(rng.choice([1, 2, 3]))]]
+
+
+def py_class(v):
+    return type(v)
+
+
+def ref_infer(v):
+    """reference type inference for a value sent as a variant (upstream documentation:
+    wrapper classes exact, containers by their first element, heterogeneous -> variant)"""
+    sig = getattr(v, 'dbusSignature', None)
+    if sig is not None:
+        return sig
+    if isinstance(v, bool):
+        return 'b'
+    if isinstance(v, int):
+        return 'i'
+    if isinstance(v, float):
+        return 'd'
+    if isinstance(v, str):
+        return 's'
+    if isinstance(v, bytearray):
+        return 'ay'
+    if isinstance(v, list):
+        if not v:
+            return 'av'
+        if all(isinstance(x, type(v[0])) for x in v[1:]):
+            return 'a' + ref_infer(v[0])
+        return 'av'
+    if isinstance(v, tuple):
+        return '(' + ''.join(ref_infer(x) for x in v) + ')'
+    if isinstance(v, dict):
+        if not v:
+            return 'a{sv}'
+        items = list(v.items())
+        k0, v0 = items[0]
+        if all(isinstance(x, type(v0)) for _, x in items[1:]):
+            return 'a{' + ref_infer(k0) + ref_infer(v0) + '}'
+        return 'a{' + ref_infer(k0) + 'v}'
+    raise TypeError(v)
 
 
 def bits_to_float(b):
@@ -197,7 +237,15 @@ class Shapes:
             if t == 'h':
                 return 100 + w      # the "descriptor" object attached at index w
             if t == 'v':
-                return self.py(w['vt'], w['w'], strict=True)
+                v = self.py(w['vt'], w['w'], strict=True)
+                if v is None or has_none(v):
+                    return None
+                try:
+                    if ref_infer(v) != show(w['vt']):
+                        return None
+                except TypeError:
+                    return None
+                return v
             raise ValueError(t)
         if t[0] == 'a':
             et = t[1]
